@@ -313,6 +313,16 @@ def gen_case(seed, idx, big=False, force=None, ntsc_ok=True, data_block_min=None
                     break
             taken.add(nm.upper())
             params.append(rand_custom_param(r, g["id"], nm, state=big_state))
+    if idx % 11 == 4:
+        # a parameter whose name EXTENDS a managed name, stored BEFORE it in its group (LABELS2 before LABELS, RATE_NOMINAL before RATE):
+        # names are compared in full, the longer one is a different parameter
+        extra = [dict(gid=P, name=b"LABELS2", type=-1, dims=[3, 2], values=[b"zzz", b"yy"]), dict(gid=P, name=b"RATE_NOMINAL", type=4, dims=[], values=[fbits(7.5)]),
+                 dict(gid=P, name=b"USED_BEFORE", type=2, dims=[], values=[77])]
+        if not empty_analog:
+            extra += [dict(gid=A, name=b"RATE_NOMINAL", type=4, dims=[], values=[fbits(3.25)]), dict(gid=A, name=b"USED_BEFORE", type=2, dims=[], values=[99])]
+        have = set((p["gid"], p["name"].upper()) for p in params)
+        params[:0] = [e for e in extra if (e["gid"], e["name"]) not in have]
+        meta["variants"].append("names_extending_managed_names_first")
     for p in params:
         p.setdefault("desc", b"")
         p.setdefault("locked", False)
